@@ -13,6 +13,7 @@
 //	        the fake peer writes ONE RPC with exactly these parts on its stream to the node
 //	{"a":"ppub","t":topic,"g":group,"parts":[..]}     the application calls pubsub.PublishPartial
 //	{"a":"peer",...}  world's action; give subs [] so that the peer's first RPC is the scenario's
+//	{"a":"hold","p":peer} / {"a":"release","p":peer}  the node's next NewStream to the peer blocks / proceeds
 //
 // Every step line carries
 //
@@ -184,6 +185,18 @@ func (d *nodeDrv) do(a M) {
 			d.ret = "other"
 			if err != nil && strings.Contains(err.Error(), "not enabled") {
 				d.ret = "not-enabled"
+			}
+		}
+		hnet.Settle(15 * time.Millisecond)
+		w.Emit(a)
+	case "hold", "release":
+		// hold: the node's next NewStream to the peer blocks (its outbound stream stays down while the connection lives)
+		w.Guard()
+		if f := w.Fakes[gets(a, "p")]; f != nil {
+			if gets(a, "a") == "hold" {
+				w.H.HoldOpen(f.ID())
+			} else {
+				w.H.ReleaseOpen(f.ID())
 			}
 		}
 		hnet.Settle(15 * time.Millisecond)
